@@ -935,8 +935,17 @@ func (e *Engine) sprint(args []Value, ln bool) Value {
 }
 
 // nativeMethod dispatches interface method calls on engine-native objects.
-func (e *Engine) nativeMethod(n *Native, name string, args []Value) Value {
+func (e *Engine) nativeMethod(n *Native, name string, args []Value, m *types.Func) Value {
 	switch n.Kind + "." + name {
+	case "fileinfo.Mode", "fileinfo.ModTime", "fileinfo.Size", "fileinfo.IsDir", "fileinfo.Name":
+		// an opaque os.FileInfo: its observations are decided by the methods called on the results
+		if name == "Name" {
+			return n.Data
+		}
+		if name == "IsDir" {
+			return e.faultPoint("isdir")
+		}
+		return e.zero(m.Type().(*types.Signature).Results().At(0).Type())
 	case "error.Error":
 		return n.Msg
 	case "error.Unwrap":
